@@ -34,6 +34,7 @@ type sField struct {
 	Ask    bool   // with Api: the strategy asks ProceedWithSet(Api) itself and then writes the storage key unconditionally
 	Always bool   // written whatever the checker says (the model counts it as selected by every checker)
 	Via  string // how the strategy persists the field: "" TypedBucket-level setter (SetString / SetStringP), "req" PersistContext.SetRequiredString, "gas" PersistContext.GetAndSetString (same stored value; not part of the schema text)
+	Typ  string // "" = string; i64 i32 bool f64 time (store_c03t.go): the field is persisted / read with the typed setters and the value strings of cases and facts are the bytes of its storage encoding (= the index key)
 }
 
 func (f sField) symName() string {
@@ -232,6 +233,10 @@ func (st *gStrategy) FillEntity(e *gEnt, bucket *boltz.TypedBucket) {
 		}
 	}
 	for _, f := range st.def.Fields {
+		if f.Typ != "" {
+			e.F[f.Name] = c03tFieldGet(bucket, f)
+			continue
+		}
 		e.F[f.Name] = bucket.GetString(f.Name)
 	}
 }
@@ -245,6 +250,10 @@ func (st *gStrategy) PersistEntity(e *gEnt, ctx *boltz.PersistContext) {
 	c04ApplyOverrides(st.def, ctx) // Api attributes; no-op for stores without them
 	for _, f := range st.def.Fields {
 		v := e.F[f.Name]
+		if f.Typ != "" {
+			c03tFieldSet(ctx, f, v)
+			continue
+		}
 		if f.Via != "" && !f.Ptr {
 			// the PersistContext-level helpers (they store the same typed string value)
 			sv := ""
@@ -451,7 +460,7 @@ func openHarnessDb(w *wiring, dir string) (*harnessDb, error) {
 				if t, ok := fkTarget[def.Name+"."+f.Name]; ok {
 					gs.symbols[f.Name] = gs.AddFkSymbolWithKey(f.symName(), f.Name, h.stores[t])
 				} else {
-					gs.symbols[f.Name] = gs.AddSymbolWithKey(f.symName(), ast.NodeTypeString, f.Name)
+					gs.symbols[f.Name] = gs.AddSymbolWithKey(f.symName(), c03tNodeType(f), f.Name)
 				}
 				if f.Sym != "" {
 					h.symToKey[f.Sym] = f.Name
@@ -939,6 +948,7 @@ func (h *harnessDb) facts() []string {
 			addChildSet(d.Target, d.Back)
 		}
 	}
+	typed := c03tTypedKeys(h.w) // nil unless the wiring declares typed fields
 	_ = h.db.View(func(tx *bbolt.Tx) error {
 		top := tx.Bucket([]byte("stores"))
 		if top == nil {
@@ -1021,7 +1031,7 @@ func (h *harnessDb) facts() []string {
 					fname := string(fk)
 					if fv != nil {
 						if !ignoredFields[fname] {
-							out = append(out, fmt.Sprintf("F:%s:%s:%s:%s", name, ih, fname, fieldValStr(fv)))
+							out = append(out, fmt.Sprintf("F:%s:%s:%s:%s", name, ih, fname, c03tFieldValStr(typed, name+"."+fname, fv)))
 						}
 						return nil
 					}
@@ -1036,7 +1046,7 @@ func (h *harnessDb) facts() []string {
 						out = append(out, fmt.Sprintf("C:%s:%s:%s", name, ih, fname))
 						_ = sub.ForEach(func(ck, cv []byte) error {
 							if cv != nil {
-								out = append(out, fmt.Sprintf("CF:%s:%s:%s:%s:%s", name, ih, fname, ck, fieldValStr(cv)))
+								out = append(out, fmt.Sprintf("CF:%s:%s:%s:%s:%s", name, ih, fname, ck, c03tFieldValStr(typed, fname+"."+string(ck), cv)))
 							} else if cs := sub.Bucket(ck); cs != nil && childSets[fname][string(ck)] {
 								_ = cs.ForEach(func(mk, mv []byte) error {
 									if len(mk) > 0 && boltz.FieldType(mk[0]) == boltz.TypeString {
